@@ -207,6 +207,14 @@ def _bt(b):
     return z3.BoolVal(bool(b))
 
 
+_SYMBOLIC_NAMES = ('SymStr', 'SymReal', 'SymInt', 'SBool', 'LowerView', 'IVar', 'SymText', 'SymRow', 'ArrTag', "'Var'", 'MockBase')
+
+
+def _mentions_symbolic(e):
+    msg = str(e)
+    return any(n in msg for n in _SYMBOLIC_NAMES)
+
+
 class Path:
     def __init__(self, c: Ctx, kind, value, exc=None):
         self.pc = list(c.pc)
@@ -248,6 +256,9 @@ def explore(fn, base=(), opts=None, catch=(Exception,), max_paths=2000):
                 except catch as e:  # the code under test raised: a legitimate path end
                     if isinstance(e, (AssertionError,)) and getattr(e, '_vf_internal', False):
                         raise
+                    if isinstance(e, (TypeError, AttributeError)) and _mentions_symbolic(e):
+                        # CPython refused a symbolic stand-in (e.g. str.join, int(), indexing): an engine limit, not the code's exception
+                        raise Unsupported(f'CPython operation not available on symbolic values: {type(e).__name__}: {e}') from e
                     p = Path(CTX, 'raise', e, exc=type(e))
                 paths.append(p)
                 todo.extend(CTX.pending)
